@@ -100,7 +100,8 @@ class Validator:
     def _register(self, owner: Type):
         self.owner = owner
         self.dependencies = find_all_dependencies(owner, self.func) | self.params
-        _validators[owner].append(self)
+        # reassign (instead of mutating in place) in order to reset the cache
+        _validators[owner] = [*_validators[owner], self]
 
     def __set_name__(self, owner, name):
         self._register(owner)
